@@ -136,6 +136,129 @@ func implInject(k int, inTry bool, vars, prog string) string {
 	return esc + ";" + restTok(vm) + ";" + tr + ";" + followTok(vm)
 }
 
+// logCalls runs the program unperturbed and reports, per call of the host function `log`, whether a
+// script-level try block was active around it.
+func logCalls(src string) []bool {
+	var intry []bool
+	vm := otto.New()
+	vm.Set("log", func(call otto.FunctionCall) otto.Value {
+		intry = append(intry, inTryNow())
+		return call.Argument(0)
+	})
+	func() {
+		defer func() { recover() }()
+		vm.Run(src)
+	}()
+	return intry
+}
+
+// implHostPanic: the j-th call of the HOST FUNCTION `log` panics with a Go value (a real host-function panic,
+// raised inside the native call's own scope, not at a polling point).  Outside try blocks it has to come
+// out of Run, with the runtime at rest and exactly the first j log entries made.
+func implHostPanic(j int, inTry bool, vars, prog string) string {
+	src := mujs.RenderJS(vars, prog)
+	var normal []string
+	vm0 := newVM(&normal)
+	func() {
+		defer func() { recover() }()
+		vm0.Run(src)
+	}()
+	if j >= len(normal) {
+		return "j-out-of-range"
+	}
+	var logged []string
+	vm := otto.New()
+	n := 0
+	vm.Set("log", func(call otto.FunctionCall) otto.Value {
+		if n == j {
+			n++
+			panic(sentinel{j})
+		}
+		n++
+		logged = append(logged, mujs.Tok(call.Argument(0)))
+		return call.Argument(0)
+	})
+	esc := "caught"
+	func() {
+		defer func() {
+			if r := recover(); r != nil {
+				if s, ok := r.(sentinel); ok && s.k == j {
+					esc = "escapes"
+				} else {
+					esc = "other-panic:" + strings.ReplaceAll(fmt.Sprint(r), " ", "_")
+				}
+			}
+		}()
+		vm.Run(src)
+	}()
+	tr := "trace:exact-prefix"
+	if strings.Join(normal[:j], ",") != strings.Join(logged, ",") {
+		tr = "trace:differs(" + strings.Join(logged, ",") + "|want|" + strings.Join(normal[:j], ",") + ")"
+	}
+	if inTry {
+		if esc == "escapes" || esc == "caught" {
+			esc = "escapes-or-caught"
+		}
+		tr = "trace:any"
+	}
+	return esc + ";" + restTok(vm) + ";" + tr + ";" + followTok(vm)
+}
+
+// implSwallow: what Go callers may do with a halt.  A host function runs a nested script that catches everything,
+// the nested script is halted through the channel, and the host function
+//   0: recovers the halt and throws a script exception  -> the enclosing try catches THAT (the halt is over)
+//   1: recovers the halt and panics with the same value -> still a halt: no try catches it, it leaves Run
+//   2: recovers the halt and returns normally           -> the script goes on, a later throw is caught as usual
+//   3: lets it pass                                     -> it leaves the outer Run
+// and `closed`: a closed Interrupt channel (the README closes it when its watchdog is done) is harmless.
+func implSwallow(variant string) string {
+	type stop struct{ n int }
+	vm := otto.New()
+	vm.Interrupt = make(chan func(), 1)
+	vm.Set("arm", func(call otto.FunctionCall) otto.Value {
+		vm.Interrupt <- func() { panic(stop{7}) }
+		return otto.UndefinedValue()
+	})
+	spin := `arm(); for(;;){ try { for(;;){} } catch (e) {} }`
+	vm.Set("host", func(call otto.FunctionCall) otto.Value {
+		var got interface{}
+		func() {
+			if variant != "3" {
+				defer func() { got = recover() }()
+			}
+			vm.Run(spin)
+		}()
+		switch variant {
+		case "0":
+			panic(vm.MakeTypeError("from host"))
+		case "1":
+			panic(got)
+		}
+		return otto.UndefinedValue()
+	})
+	if variant == "closed" {
+		close(vm.Interrupt)
+		v, err := vm.Run(`var n = 0; for (var i = 0; i < 5; i++) { try { n += i; if (i == 3) throw i } catch (e) { n += 100 } } n`)
+		return strings.ReplaceAll(fmt.Sprint("returned:", v, ",", err), " ", "_") + ";" + restTok(vm) + ";" + followTok(vm)
+	}
+	out := ""
+	func() {
+		defer func() {
+			if r := recover(); r != nil {
+				if s, ok := r.(stop); ok && s.n == 7 {
+					out = "halted"
+				} else {
+					out = "other-panic:" + strings.ReplaceAll(fmt.Sprint(r), " ", "_")
+				}
+			}
+		}()
+		v, err := vm.Run(`var r = "none"; try { host(); r = "returned" } catch (e) { r = "caught:" + e } try { throw 1 } catch (e) { r += ";then:" + e } r`)
+		out = strings.ReplaceAll(fmt.Sprint("returned:", v, ",", err), " ", "_")
+	}()
+	vm.Interrupt = nil
+	return out + ";" + restTok(vm) + ";" + followTok(vm)
+}
+
 // implHalt delivers, at evaluation step k, an interrupt function that panics, through the real channel (the
 // hook fills the one-slot channel; the poll that follows the hook at every polling point takes it).  Whether
 // or not a script-level try block is active there, the panic has to come out of Run with nothing run after it.
@@ -151,7 +274,15 @@ func implHalt(k int, vars, prog string) string {
 	step := 0
 	otto.VerifStepHook = func(depth, labels int) {
 		if step == k {
-			vm.Interrupt <- func() { panic(sentinel{k}) }
+			vm.Interrupt <- func() {
+				if k%2 == 1 {
+					// every other time the function first runs script on the runtime it interrupts
+					// (statements, a caught exception) and only then panics (seed N03)
+					otto.VerifStepHook = nil
+					vm.Run(`var __h = 0; try { throw 1 } catch (e) { __h = e } for (var __j = 0; __j < 2; __j++) { __h += __j }`)
+				}
+				panic(sentinel{k})
+			}
 		}
 		step++
 	}
@@ -533,6 +664,11 @@ func implC18(line string) string {
 	case "halt":
 		fmt.Sscan(f[1], &a)
 		return implHalt(a, f[3], f[4])
+	case "swallow":
+		return implSwallow(f[1])
+	case "hostpanic":
+		fmt.Sscan(f[1], &a)
+		return implHostPanic(a, f[2] == "intry", f[3], f[4])
 	case "depth":
 		fmt.Sscan(f[1], &a)
 		fmt.Sscan(f[2], &b)
@@ -597,6 +733,9 @@ func genC18(c *h.Ctx) {
 	for v := 0; v <= 4; v++ {
 		c.Add(fmt.Sprintf("icopy %d", v), "icopy")
 	}
+	for _, v := range []string{"0", "1", "2", "3", "closed"} {
+		c.Add("swallow "+v, "swallow")
+	}
 	maxL := c.N(12, 64)
 	for L := 0; L <= maxL; L++ {
 		lo := L - 3
@@ -650,6 +789,16 @@ func genC18(c *h.Ctx) {
 		} else {
 			for j := 0; j < 40; j++ {
 				ks = append(ks, c.Rng.Intn(steps))
+			}
+		}
+		for j, in := range logCalls(mujs.RenderJS(vars, prog)) {
+			if j >= 40 {
+				break
+			}
+			if in {
+				c.Add(fmt.Sprintf("hostpanic %d intry %s %s", j, vars, prog), "hostpanic:inside-try")
+			} else {
+				c.Add(fmt.Sprintf("hostpanic %d free %s %s", j, vars, prog), "hostpanic:outside-try")
 			}
 		}
 		for _, k := range ks {
